@@ -610,8 +610,28 @@ class Evaluator:
             e2 = _copy_env(env)
             assume_env(e1, c, True)
             assume_env(e2, c, False)
+            objs = _reachable_objs(env, fr)
+            snap = [(o, dict(o.fields)) for o in objs]
             f1 = self.block(st.body, e1, pc + [c], fr)
+            after1 = [dict(o.fields) for o in objs]
+            for o, flds in snap:
+                o.fields = dict(flds)
             f2 = self.block(st.orelse, e2, pc + [mk_not(c)], fr)
+            after2 = [dict(o.fields) for o in objs]
+            for o, a1, a2 in zip(objs, after1, after2):
+                if f1 and f2:
+                    merged = {}
+                    for k in set(a1) | set(a2):
+                        if k in a1 and k in a2:
+                            merged[k] = mk_ite(c, a1[k], a2[k])
+                        else:
+                            merged[k] = mk_ite(c, a1.get(k, Unknown(f'field {k} unset on one path')),
+                                               a2.get(k, Unknown(f'field {k} unset on one path')))
+                    o.fields = merged
+                elif f1:
+                    o.fields = a1
+                else:
+                    o.fields = a2
             if f1 and f2:
                 for k in set(e1) | set(e2):
                     a = e1.get(k, Unknown(f'{k} undefined on one path'))
@@ -891,6 +911,8 @@ class Evaluator:
                     return Const(not pos)
             if same(a, b):
                 return Const(pos)
+            if isinstance(b, Const) and b.v is None and isinstance(a, App) and a.name == 'copy':
+                return Const(not pos)
             return Cmp('is' if pos else 'isnot', a, b)
         if isinstance(op, (ast.In, ast.NotIn)):
             pos = isinstance(op, ast.In)
@@ -1371,6 +1393,26 @@ def _copy_env(env):
 
 def _merge_objs(env):
     return
+
+
+def _reachable_objs(env, fr):
+    out, seen = [], set()
+
+    def add(v, d=0):
+        if isinstance(v, Obj) and id(v) not in seen and v.path is None:
+            seen.add(id(v))
+            out.append(v)
+            if d < 2:
+                for x in list(v.fields.values()):
+                    add(x, d + 1)
+        elif isinstance(v, Tup) and d < 2:
+            for x in v.items:
+                add(x, d + 1)
+    for v in env.values():
+        add(v)
+    if fr.self_obj is not None:
+        add(fr.self_obj)
+    return out
 
 
 def _iter_items(v):
